@@ -26,6 +26,7 @@ type Mutant struct {
 	New    string
 	Expect string // prefix of the obligation key (rule/construct) that must be reported
 	Quick  bool   // eligible as a quick-tier positive control
+	Tier   string // tier whose rules must be run to catch it ("" = quick)
 	// second substitution (same or other file) for two-site mutants
 	File2, Old2, New2 string
 }
@@ -97,7 +98,11 @@ func evalMutant(p *Property, m Mutant) (int, string) {
 	}
 	progs := NewProgs()
 	progs.Overlay = ov
-	c := runProperty(p, "quick", progs)
+	tier := "quick"
+	if m.Tier != "" {
+		tier = m.Tier
+	}
+	c := runProperty(p, tier, progs)
 	var hits []string
 	for _, o := range c.Obs {
 		if o.Verdict == OK {
